@@ -56,6 +56,11 @@ type c09Pipe struct {
 	rtimer  *time.Timer
 	wtimer  *time.Timer
 	total   int64 // bytes ever accepted from the writer
+	// chunk > 0: a Read returns at most chunk bytes (a transport may deliver one write in several
+	// segments; readers must not assume that one Read returns a whole message)
+	chunk int
+	// window > 0 overrides c09Window: how many unread bytes the writer may have in flight
+	window int
 }
 
 func newC09Pipe() *c09Pipe {
@@ -81,6 +86,9 @@ func (p *c09Pipe) read(b []byte) (int, error) {
 			return 0, errC09ReadClosed
 		}
 		if len(p.buf) > 0 {
+			if p.chunk > 0 && len(b) > p.chunk {
+				b = b[:p.chunk]
+			}
 			n := copy(b, p.buf)
 			p.buf = p.buf[n:]
 			p.cond.Broadcast()
@@ -99,25 +107,44 @@ func (p *c09Pipe) read(b []byte) (int, error) {
 func (p *c09Pipe) write(b []byte) (int, error) {
 	p.mu.Lock()
 	defer p.mu.Unlock()
+	written := 0
 	for {
 		if p.werr != nil {
-			return 0, p.werr
+			return written, p.werr
 		}
 		if p.wclosed {
-			return 0, errC09WriteClosed
+			return written, errC09WriteClosed
 		}
 		if p.rclosed {
 			p.total += int64(len(b))
-			return len(b), nil // the peer no longer reads: data is dropped
+			return written + len(b), nil // the peer no longer reads: data is dropped
 		}
-		if len(p.buf) < c09Window {
-			p.buf = append(p.buf, b...)
-			p.total += int64(len(b))
+		win := p.window
+		if win == 0 {
+			win = c09Window
+		}
+		if len(p.buf) < win {
+			if p.window == 0 {
+				// default window: a write is taken whole once there is room (as before)
+				p.buf = append(p.buf, b...)
+				p.total += int64(len(b))
+				p.cond.Broadcast()
+				return written + len(b), nil
+			}
+			// explicit (small) window: only what fits is taken, the rest waits for the reader
+			n := min(len(b), win-len(p.buf))
+			p.buf = append(p.buf, b[:n]...)
+			p.total += int64(n)
+			written += n
+			b = b[n:]
 			p.cond.Broadcast()
-			return len(b), nil
+			if len(b) == 0 {
+				return written, nil
+			}
+			continue
 		}
 		if !p.wdl.IsZero() && !time.Now().Before(p.wdl) {
-			return 0, os.ErrDeadlineExceeded
+			return written, os.ErrDeadlineExceeded
 		}
 		p.cond.Wait()
 	}
@@ -181,9 +208,14 @@ type c09Stream struct {
 
 var c09StreamSeq atomic.Int64
 
+var c09Chunks = []int{0, 0, 1, 0, 0, 5, 0, 0, 0, 11, 0, 2}
+
 func newC09StreamPair(client, server peer.ID, pid protocol.ID, scope *c09Scope) (c, s *c09Stream) {
 	a, b := newC09Pipe(), newC09Pipe()
 	id := c09StreamSeq.Add(1)
+	// every few streams deliver their bytes in small segments, in both directions
+	a.chunk = c09Chunks[int(id)%len(c09Chunks)]
+	b.chunk = a.chunk
 	c = &c09Stream{
 		id: fmt.Sprintf("c09-%d-c", id), in: b, out: a, proto: pid, dir: network.DirOutbound,
 		conn: newC09Conn(client, server), scope: &c09Scope{},
@@ -395,6 +427,9 @@ type c09Net struct {
 	all      []*c09Exchange
 	// faults applied to the scope of the next stream
 	nextFailService, nextFailReserve bool
+	// nextSmallWindow: the next stream lets the server have only 1 KiB in flight (a peer that
+	// stops reading its answer)
+	nextSmallWindow bool
 }
 
 func newC09Net() *c09Net {
@@ -449,6 +484,10 @@ func (h *c09Host) NewStream(_ context.Context, p peer.ID, pids ...protocol.ID) (
 	scope := &c09Scope{failService: n.nextFailService, failReserve: n.nextFailReserve}
 	n.nextFailService, n.nextFailReserve = false, false
 	c, s := newC09StreamPair(h.id, p, pid, scope)
+	if n.nextSmallWindow {
+		s.out.window = 1024
+		n.nextSmallWindow = false
+	}
 	x := &c09Exchange{srv: s, cli: c, scope: scope, done: make(chan struct{})}
 	n.last = x
 	n.all = append(n.all, x)
